@@ -661,6 +661,7 @@ theorem emit_sim : ∀ (op : Host) (fuel : Nat) (m m' : Mem) (cs : List PCmd), B
                       = n + 7 + bc.length + ld.length + clc.length by
                         simp [loopUntilEntry, loopUntilExit]; omega]
                     exact Steps.trans r01 hst
+  | epr evs => intro fuel m m' cs hb; exact hb.elim
   | tryUntil k body ih =>
     intro fuel m m' cs hb h H L MH p n hs hs' ts hext hextL hpl hrel hh
     simp only [emit] at h
